@@ -13,6 +13,7 @@
   and therefore holds in every reachable state.
 -/
 import Proofs.C02
+import Proofs.Layout
 import Proofs.Run
 
 namespace Hive
@@ -84,6 +85,30 @@ theorem initial {s : Sim} (hv : ∀ v ∈ s.vehicles, v.act.free = true)
       intro v _ hf; cases h : v.act <;> simp_all [holdsStall, Act.free])
     rw [h3]
     simp [hb b hb']
+
+/-- **the initial layout**: stations loaded from any stations file (stations on several rows, a
+    plug type listed more than once, zero counts - `Layout.loadStations` is the fold of
+    `Station.from_row` / `append_chargers` / `ChargerState.add_chargers`), bases built by
+    `Base.from_row`, vehicles idle: the counters match (memberships assigned from the fleets file
+    afterwards do not touch them) -/
+theorem loaded_layout (cat : Layout.Catalogue) (rows : List Layout.StationRow) {loaded : List Station}
+    (hl : Layout.loadStations cat rows [] = some loaded) {s : Sim}
+    (hs : ∀ st ∈ s.stations, ∃ st0 ∈ loaded, st.plugs = st0.plugs)
+    (hb : ∀ b ∈ s.bases, ∃ r : Layout.BaseRow, b.total = (Layout.baseOf r).total ∧ b.avail = (Layout.baseOf r).avail)
+    (hv : ∀ v ∈ s.vehicles, v.act.free = true) : inv02 s = true := by
+  apply initial hv
+  · intro st hst cs hcs
+    obtain ⟨st0, h0, hp⟩ := hs st hst
+    exact Layout.loadStations_full rows (by intro x hx; cases hx) hl st0 h0 cs (hp ▸ hcs)
+  · intro b hb'
+    obtain ⟨r, h1, h2⟩ := hb b hb'
+    rw [h1, h2]; rfl
+
+/-- not vacuous: one station on three rows, one plug type listed twice -/
+example : (Layout.loadStations (fun _ => some (true, 50))
+    [⟨0, ⟨0, 0⟩, 1, 2, true⟩, ⟨0, ⟨0, 0⟩, 2, 1, false⟩, ⟨0, ⟨0, 0⟩, 1, 3, false⟩] []).map
+      (fun l => l.map fun st => st.plugs.map fun cs => (cs.id, cs.total, cs.avail, cs.enq))
+    = some [[(1, 5, 5, 0), (2, 1, 1, 0)]] := by decide
 
 /-! ### non-vacuity: a concrete state with contention satisfies the hypotheses -/
 
